@@ -575,5 +575,69 @@ impl ConsumerGroup {
 //@@ end
 }
 
+// ---------------------------------------------------------------------------------------------------------------------------
+// The stream side of XREADGROUP: what is read out of the stream for a group, and how the read is booked on the group
+//@@ item src/storage/stream.rs StreamRangeResult
+//@@ item src/storage/stream.rs StreamData
+/// the stream's entries are kept in strictly increasing id order (C15's invariant; here a precondition)
+pub open spec fn sorted_ids(es: Seq<StreamEntry>) -> bool { forall|i: int, j: int| 0 <= i < j < es.len() ==> es[i].id.packed < es[j].id.packed }
+/// `r` is the run of at most `maxc` entries of `es` that starts at `s`, the first entry whose id is greater than `after`:
+/// nothing after the cursor is skipped, nothing at or before it is returned, and the order is the stream's
+pub open spec fn range_after_is(es: Seq<StreamEntry>, after: StreamId, maxc: int, r: Seq<StreamEntry>, s: int) -> bool {
+    &&& 0 <= s <= es.len()
+    &&& forall|j: int| 0 <= j < s ==> (#[trigger] es[j]).id.packed <= after.packed
+    &&& forall|j: int| s <= j < es.len() ==> (#[trigger] es[j]).id.packed > after.packed
+    &&& r.len() == (if es.len() - s <= maxc { es.len() - s } else { maxc })
+    &&& r =~= es.subrange(s, s + r.len())
+}
+/// COUNT absent means "all of them"
+pub open spec fn maxc_of(count: Option<usize>, len: nat) -> int { match count { Some(c) => c as int, None => len as int } }
+/// `entries.binary_search_by(|e| e.id.cmp(after_id)).map(|idx| idx + 1).unwrap_or_else(|idx| idx)` (RXPR site; closure-taking
+/// std search + Result adapters): ASSUMED to be std's meaning on a slice sorted by id — the index of the first entry whose id
+/// is greater than `after_id`
+#[verifier::external_body]
+pub fn verif_first_after(entries: &Vec<StreamEntry>, after_id: &StreamId) -> (r: usize)
+    requires sorted_ids(entries@),
+    ensures r <= entries@.len(),
+        forall|j: int| 0 <= j < r ==> (#[trigger] entries@[j]).id.packed <= after_id.packed,
+        forall|j: int| r <= j < entries@.len() ==> (#[trigger] entries@[j]).id.packed > after_id.packed,
+{ entries.binary_search_by(|e| e.id.cmp(after_id)).map(|idx| idx + 1).unwrap_or_else(|idx| idx) }
+/// `StreamEntry::clone` / `Vec<StreamEntry>::clone` (#[derive(Clone)], structural): TRUSTED to return an equal value
+#[verifier::external_body]
+pub fn verif_clone_entry(e: &StreamEntry) -> (r: StreamEntry)
+    ensures r == *e,
+{ unimplemented!() }
+#[verifier::external_body]
+pub fn verif_clone_entries(v: &Vec<StreamEntry>) -> (r: Vec<StreamEntry>)
+    ensures r == *v,
+{ unimplemented!() }
+
+impl StreamData {
+//@@ unit data_range_after fn src/storage/stream.rs StreamData::range_after
+//@@   rewrite RXPR "self.entries.binary_search_by(|e| e.id.cmp(after_id)) .map(|idx| idx + 1) .unwrap_or_else(|idx| idx)" "verif_first_after(&self.entries, after_id)"
+//@@   rewrite RT "self.entries[i].clone()" "verif_clone_entry(&self.entries[i])"
+//@@   rewrite RT "let mut result_entries = Vec::new();" "let mut result_entries: Vec<StreamEntry> = Vec::new();"
+//@@   rewrite RFORC 0
+//@@   loop 0
+//@@|     invariant_except_break
+//@@|         result_entries@ =~= self.entries@.subrange(start_idx as int, i__n as int),
+//@@|     invariant
+//@@|         start_idx <= i__n <= i__end, i__end == self.entries@.len(), max_count as int == (match count { Some(c) => c as int, None => self.entries@.len() as int }),
+//@@|         result_entries@.len() <= max_count,
+//@@|     ensures
+//@@|         result_entries@.len() == (if self.entries@.len() - start_idx <= max_count { self.entries@.len() - start_idx } else { max_count as int }),
+//@@|         result_entries@ =~= self.entries@.subrange(start_idx as int, start_idx + result_entries@.len()),
+//@@|     decreases i__end - i__n,
+    fn range_after(&self, after_id: &StreamId, count: Option<usize>) -> (r: StreamRangeResult)
+        requires sorted_ids(self.entries@),
+        ensures
+            // C16 / C15: the entries handed out are exactly the next ones after the given id, at most `count`, in stream order
+            exists|s: int| #[trigger] range_after_is(self.entries@, *after_id, maxc_of(count, self.entries@.len()), r.entries@, s),
+//@@   at "StreamRangeResult { entries: result_entries }"
+//@@|     proof { let r0 = StreamRangeResult { entries: result_entries }; assert(range_after_is(self.entries@, *after_id, maxc_of(count, self.entries@.len()), r0.entries@, start_idx as int)); }
+//@@ body
+//@@ end
+}
+
 } // verus!
 fn main() {}
